@@ -12,8 +12,12 @@ IsEvent(e) == l <= Len(Trace) /\ Trace[l].ev = e /\ l' = l + 1 /\ Mark(l)
 \* dial {s, h, p, d, seen: [[net, host, port], ...]} : every address the socket layer was asked to connect to
 Dial == /\ IsEvent("dial")
         /\ LET ev == Trace[l]  t == Target(ev.s, ev.h, ev.p, ev.d) IN
-           Report(l, IF Len(ev.seen) >= 1 /\ \A i \in 1..Len(ev.seen) :
-                           ev.seen[i][1] = t.net /\ ev.seen[i][2] = HostIp(t.host) /\ ev.seen[i][3] = t.port
+           \* a plain (UDP) upstream has two legs - UDP, and TCP for truncated replies - to one and the same place
+           Report(l, IF /\ Len(ev.seen) >= 1
+                        /\ \A i \in 1..Len(ev.seen) :
+                              /\ (ev.seen[i][1] = t.net \/ (ev.s \in {"", "udp"} /\ ev.seen[i][1] = "tcp"))
+                              /\ ev.seen[i][2] = HostIp(t.host) /\ ev.seen[i][3] = t.port
+                        /\ (ev.s \in {"", "udp"} /\ t.net = "udp") => \E i \in 1..Len(ev.seen) : ev.seen[i][1] = "tcp"
                      THEN {} ELSE {"Inv_C17_Target"})
 
 \* hello {s, h, p, d, sni, host, hostport}: what a local fake server saw (URL host is the domain name)
